@@ -49,6 +49,114 @@ def analyse_decoder(prog, fn, l0):
     return it, it.run(init), params
 
 
+def decoder(ck, prog, config, ca='C20-a', cb='C20-b', cc='C20-c', cd='C20-d'):
+    """Bounded reads, exact value / no wrap, cursor bookkeeping and narrowing of the two decoders."""
+    fn = prog.need_func('compint_to_size')
+    maxc = prog.macro('MAX_COMP_SIZE')
+    ck.require(maxc is not None, 'MAX_COMP_SIZE cannot be evaluated')
+    ck.ob(cd, 'R9.const', 'zck_private.h', 'MAX_COMP_SIZE', maxc == 10,
+          'MAX_COMP_SIZE = %s (ceil(64/7) = 10 bytes hold every 64-bit value)' % maxc, config=config)
+    unb = {}
+    accept_n = {}
+    problems = []
+    n_accept = n_reject = 0
+    for l0 in (0, 1000):
+        it, exits, params = analyse_decoder(prog, fn, l0)
+        kl = ('d', params['length'].decl, '*length')
+        kv = ('d', params['val'].decl, '*val')
+        for rv, st, node in exits:
+            if rv is None:
+                problems.append(('no-return', node.line, 'control reaches the end of the function'))
+                continue
+            reads = [r for r in st.reads if r[0] == 'compint']
+            accepting = rv[0] > 0 or rv[1] < 0
+            rejecting = rv == (0, 0)
+            cur = st.env.get(kl)
+            if accepting:
+                n_accept += 1
+                offs = [r[1] for r in reads]
+                n = len(offs)
+                for r in reads:
+                    if not r[3]:
+                        unb[r[2]] = 'input byte read at line %d without a preceding *length < max_length test ' \
+                                    'since the cursor last moved (start cursor %d)' % (r[2], l0)
+                if offs != list(range(n)):
+                    problems.append(('reads', node.line, 'accepting path reads offsets %s, expected 0..%d' % (offs, n - 1)))
+                if n > maxc:
+                    problems.append(('too-long', node.line, 'accepting path reads %d bytes (> MAX_COMP_SIZE)' % n))
+                if cur != (l0 + n, l0 + n):
+                    problems.append(('cursor', node.line, 'accepting path read %d bytes but *length moved from %d to %s'
+                                     % (n, l0, cur)))
+                for ev in dedup_events(st.events):
+                    problems.append(('overflow', ev['line'], '%s in `%s` (interval [%d, %d] as %s) on a path that '
+                                     'accepts a %d-byte encoding' % (ev['kind'], ev['expr'], ev['interval'][0],
+                                                                     ev['interval'][1], ev['type'], n)))
+                val = st.env.get(kv)
+                want = (0, min(128 ** n - 1, SIZE_MAX))
+                accept_n.setdefault(n, set()).add(val)
+                if val != want and not st.events:
+                    problems.append(('value', node.line, 'accepted %d-byte encodings decode to [%s, %s]; the '
+                                     'mathematical range is [0, %d]' % (n, val[0] if val else '?',
+                                                                        val[1] if val else '?', want[1])))
+            elif rejecting:
+                n_reject += 1
+                if cur != (l0, l0):
+                    problems.append(('restore', node.line, 'rejecting path leaves *length at %s (entered with %d)'
+                                     % (cur, l0)))
+                for r in reads:
+                    if not r[3]:
+                        unb[r[2]] = 'input byte read at line %d without a preceding *length < max_length test ' \
+                                    'since the cursor last moved (start cursor %d)' % (r[2], l0)
+            else:
+                problems.append(('verdict', node.line, 'return value %s is neither true nor false' % (rv,)))
+    ck.require(n_accept >= 1 and n_reject >= 1, 'compint_to_size: no accepting or no rejecting path found')
+    ck.ob(ca, 'R5.bounded-read', fn.name, 'reads', not unb,
+          'every input byte is read under *length < max_length (%d accepting, %d rejecting path states, cursor '
+          'started at 0 and at 1000)' % (n_accept, n_reject) if not unb else '; '.join(sorted(unb.values()))[:400],
+          fn.file, sorted(unb)[0] if unb else fn.line, config=config)
+    kinds = {}
+    for k, line, msg in problems:
+        kinds.setdefault(k, []).append((line, msg))
+    for k, text in (('overflow', 'no arithmetic node leaves the range of its C type on an accepting path'),
+                    ('value', 'accepted n-byte encodings decode to exactly [0, min(128^n - 1, SIZE_MAX)]'),
+                    ('reads', 'bytes are read consecutively from the pointer'),
+                    ('too-long', 'at most MAX_COMP_SIZE bytes are accepted'),
+                    ('cursor', '*length advances by exactly the bytes read on success'),
+                    ('restore', '*length is restored on every rejecting path'),
+                    ('verdict', 'the decoder returns true or false'), ('no-return', 'every path returns')):
+        bad = kinds.get(k)
+        ck.ob(cb, 'R9.interval', fn.name, k, not bad, text if not bad else bad[0][1] +
+              (' (+%d more)' % (len(bad) - 1) if len(bad) > 1 else ''), fn.file, bad[0][0] if bad else fn.line,
+              config=config, sample={'accepted_lengths': sorted(accept_n)} if k == 'value' else None)
+    # ---- c
+    f2 = prog.need_func('compint_to_int')
+
+    def model(interp, call, st):
+        if callee_name(call) == 'compint_to_size':
+            a = strip(call.a[2])
+            if a.k == 'un' and a.op == '&':
+                key = interp.key_of(a.a[0])
+                if key is not None:
+                    st.env[key] = (0, SIZE_MAX)
+    it2 = IntervalInterp(prog, f2, input_params=('compint',), out_params=('val', 'length'), call_model=model)
+    p2 = dict((x.op, x) for x in f2.params)
+    ck.require('val' in p2, 'compint_to_int signature changed')
+    exits = it2.run({('d', p2['val'].decl, '*val'): (0, 0)})
+    bad = []
+    nacc = 0
+    for rv, st, node in exits:
+        if rv is not None and (rv[0] > 0):
+            nacc += 1
+            for ev in dedup_events(st.events):
+                bad.append((ev['line'], '%s in `%s`: a decoded value in [%d, %d] is converted to %s on an accepting '
+                            'path' % (ev['kind'], ev['expr'], ev['interval'][0], ev['interval'][1], ev['type'])))
+    ck.require(nacc >= 1, 'compint_to_int: no accepting path')
+    ck.ob(cc, 'R9.interval', f2.name, 'narrowing', not bad,
+          'the size_t result is narrowed to int only after it is known to be <= INT_MAX' if not bad else bad[0][1],
+          f2.file, bad[0][0] if bad else f2.line, config=config)
+    return maxc
+
+
 def run(ctx):
     ck = ctx.check
     ck.explanation = (
@@ -61,109 +169,7 @@ def run(ctx):
     ck.declined += ['encode(decode(x)) == x for all values (relational arithmetic)']
     for config in ctx.configs():
         prog = ctx.prog(config)
-        fn = prog.need_func('compint_to_size')
-        maxc = prog.macro('MAX_COMP_SIZE')
-        ck.require(maxc is not None, 'MAX_COMP_SIZE cannot be evaluated')
-        ck.ob('C20-d', 'R9.const', 'zck_private.h', 'MAX_COMP_SIZE', maxc == 10,
-              'MAX_COMP_SIZE = %s (ceil(64/7) = 10 bytes hold every 64-bit value)' % maxc, config=config)
-        unb = {}
-        accept_n = {}
-        problems = []
-        n_accept = n_reject = 0
-        for l0 in (0, 1000):
-            it, exits, params = analyse_decoder(prog, fn, l0)
-            kl = ('d', params['length'].decl, '*length')
-            kv = ('d', params['val'].decl, '*val')
-            for rv, st, node in exits:
-                if rv is None:
-                    problems.append(('no-return', node.line, 'control reaches the end of the function'))
-                    continue
-                reads = [r for r in st.reads if r[0] == 'compint']
-                accepting = rv[0] > 0 or rv[1] < 0
-                rejecting = rv == (0, 0)
-                cur = st.env.get(kl)
-                if accepting:
-                    n_accept += 1
-                    offs = [r[1] for r in reads]
-                    n = len(offs)
-                    for r in reads:
-                        if not r[3]:
-                            unb[r[2]] = 'input byte read at line %d without a preceding *length < max_length test ' \
-                                        'since the cursor last moved (start cursor %d)' % (r[2], l0)
-                    if offs != list(range(n)):
-                        problems.append(('reads', node.line, 'accepting path reads offsets %s, expected 0..%d' % (offs, n - 1)))
-                    if n > maxc:
-                        problems.append(('too-long', node.line, 'accepting path reads %d bytes (> MAX_COMP_SIZE)' % n))
-                    if cur != (l0 + n, l0 + n):
-                        problems.append(('cursor', node.line, 'accepting path read %d bytes but *length moved from %d to %s'
-                                         % (n, l0, cur)))
-                    for ev in dedup_events(st.events):
-                        problems.append(('overflow', ev['line'], '%s in `%s` (interval [%d, %d] as %s) on a path that '
-                                         'accepts a %d-byte encoding' % (ev['kind'], ev['expr'], ev['interval'][0],
-                                                                         ev['interval'][1], ev['type'], n)))
-                    val = st.env.get(kv)
-                    want = (0, min(128 ** n - 1, SIZE_MAX))
-                    accept_n.setdefault(n, set()).add(val)
-                    if val != want and not st.events:
-                        problems.append(('value', node.line, 'accepted %d-byte encodings decode to [%s, %s]; the '
-                                         'mathematical range is [0, %d]' % (n, val[0] if val else '?',
-                                                                            val[1] if val else '?', want[1])))
-                elif rejecting:
-                    n_reject += 1
-                    if cur != (l0, l0):
-                        problems.append(('restore', node.line, 'rejecting path leaves *length at %s (entered with %d)'
-                                         % (cur, l0)))
-                    for r in reads:
-                        if not r[3]:
-                            unb[r[2]] = 'input byte read at line %d without a preceding *length < max_length test ' \
-                                        'since the cursor last moved (start cursor %d)' % (r[2], l0)
-                else:
-                    problems.append(('verdict', node.line, 'return value %s is neither true nor false' % (rv,)))
-        ck.require(n_accept >= 1 and n_reject >= 1, 'compint_to_size: no accepting or no rejecting path found')
-        ck.ob('C20-a', 'R5.bounded-read', fn.name, 'reads', not unb,
-              'every input byte is read under *length < max_length (%d accepting, %d rejecting path states, cursor '
-              'started at 0 and at 1000)' % (n_accept, n_reject) if not unb else '; '.join(sorted(unb.values()))[:400],
-              fn.file, sorted(unb)[0] if unb else fn.line, config=config)
-        kinds = {}
-        for k, line, msg in problems:
-            kinds.setdefault(k, []).append((line, msg))
-        for k, text in (('overflow', 'no arithmetic node leaves the range of its C type on an accepting path'),
-                        ('value', 'accepted n-byte encodings decode to exactly [0, min(128^n - 1, SIZE_MAX)]'),
-                        ('reads', 'bytes are read consecutively from the pointer'),
-                        ('too-long', 'at most MAX_COMP_SIZE bytes are accepted'),
-                        ('cursor', '*length advances by exactly the bytes read on success'),
-                        ('restore', '*length is restored on every rejecting path'),
-                        ('verdict', 'the decoder returns true or false'), ('no-return', 'every path returns')):
-            bad = kinds.get(k)
-            ck.ob('C20-b', 'R9.interval', fn.name, k, not bad, text if not bad else bad[0][1] +
-                  (' (+%d more)' % (len(bad) - 1) if len(bad) > 1 else ''), fn.file, bad[0][0] if bad else fn.line,
-                  config=config, sample={'accepted_lengths': sorted(accept_n)} if k == 'value' else None)
-        # ---- c
-        f2 = prog.need_func('compint_to_int')
-
-        def model(interp, call, st):
-            if callee_name(call) == 'compint_to_size':
-                a = strip(call.a[2])
-                if a.k == 'un' and a.op == '&':
-                    key = interp.key_of(a.a[0])
-                    if key is not None:
-                        st.env[key] = (0, SIZE_MAX)
-        it2 = IntervalInterp(prog, f2, input_params=('compint',), out_params=('val', 'length'), call_model=model)
-        p2 = dict((x.op, x) for x in f2.params)
-        ck.require('val' in p2, 'compint_to_int signature changed')
-        exits = it2.run({('d', p2['val'].decl, '*val'): (0, 0)})
-        bad = []
-        nacc = 0
-        for rv, st, node in exits:
-            if rv is not None and (rv[0] > 0):
-                nacc += 1
-                for ev in dedup_events(st.events):
-                    bad.append((ev['line'], '%s in `%s`: a decoded value in [%d, %d] is converted to %s on an accepting '
-                                'path' % (ev['kind'], ev['expr'], ev['interval'][0], ev['interval'][1], ev['type'])))
-        ck.require(nacc >= 1, 'compint_to_int: no accepting path')
-        ck.ob('C20-c', 'R9.interval', f2.name, 'narrowing', not bad,
-              'the size_t result is narrowed to int only after it is known to be <= INT_MAX' if not bad else bad[0][1],
-              f2.file, bad[0][0] if bad else f2.line, config=config)
+        maxc = decoder(ck, prog, config)
         # ---- d encoder: loop writes one byte per iteration, terminates when val == 0; at most 10 iterations
         enc = prog.need_func('compint_from_size')
         ite = IntervalInterp(prog, enc, input_params=(), out_params=('length',))
